@@ -1,0 +1,202 @@
+//go:build verif
+
+// Contracts for the gvc verifier (/verif). This file contains comments only:
+// with the "verif" build tag off it is not compiled, with it on it adds no code.
+
+package parse
+
+// ---------------------------------------------------------------------------
+// The YANG lexer (C07): a state machine running in its own goroutine.
+//
+// LI is the lexer's representation invariant. nsent/lastsent are the ghost
+// history of the item channel: a state function returns nil exactly when it
+// has just sent a terminal item (EOF or Error), so run() stops iff the
+// consumer has been told so.
+
+//@ define LI(l) = l != nil && l.items != nil && internOK(l.interner) && 0 <= l.start && l.start <= l.pos && l.pos <= len(l.input) && 0 <= l.width
+//@ define sentTerminal(l) = nsent(l.items) > old(nsent(l.items)) && (lastsent(l.items).typ == itemEOF || lastsent(l.items).typ == itemError)
+//@ define sameText(l) = l.input == old(l.input) && l.items == old(l.items) && l.interner == old(l.interner)
+
+//@ func (*lexer).next
+//@   requires LI(l)
+//@   modifies l.pos
+//@   modifies l.width
+//@   nopanic
+//@   ensures LI(l) && l.pos == old(l.pos) + l.width
+//@   ensures implies(old(l.pos) >= len(l.input), l.width == 0 && result == -1)
+//@   ensures implies(old(l.pos) < len(l.input), 1 <= l.width && l.width <= 4 && result >= 0)
+//@   ensures implies(old(l.pos) < len(l.input) && l.input[old(l.pos)] < 128, result == l.input[old(l.pos)] && l.width == 1)
+//@   ensures implies(old(l.pos) < len(l.input) && l.input[old(l.pos)] >= 128, result >= 128)
+
+//@ func (*lexer).backup
+//@   requires LI(l) && l.width <= l.pos - l.start
+//@   modifies l.pos
+//@   nopanic
+//@   ensures LI(l) && l.pos == old(l.pos) - l.width
+
+//@ func (*lexer).peek
+//@   requires LI(l)
+//@   modifies l.pos
+//@   modifies l.width
+//@   nopanic
+//@   ensures LI(l) && l.pos == old(l.pos)
+//@   ensures implies(l.pos >= len(l.input), result == -1)
+//@   ensures implies(l.pos < len(l.input), result >= 0)
+//@   ensures implies(l.pos < len(l.input) && l.input[l.pos] < 128, result == l.input[l.pos])
+//@   ensures implies(l.pos < len(l.input) && l.input[l.pos] >= 128, result >= 128)
+
+//@ func (*lexer).ignore
+//@   requires LI(l)
+//@   modifies l.start
+//@   nopanic
+//@   ensures LI(l) && l.start == l.pos
+
+// The interner maps every known string to itself.
+//@ define internOK(i) = i == nil || (i.knownStrings != nil && forallstr(k, implies(inmap(i.knownStrings, k), i.knownStrings[k] == k)))
+//@ func (*StringInterner).Intern
+//@   requires internOK(i)
+//@   modifies mapof(i.knownStrings)
+//@   nopanic
+//@   ensures result == in && internOK(i)
+
+//@ func (*lexer).emit
+//@   requires LI(l)
+//@   modifies l.start
+//@   modifies sent(l.items)
+//@   modifies mapof(l.interner.knownStrings)
+//@   nopanic
+//@   ensures LI(l) && l.start == l.pos
+//@   ensures nsent(l.items) == old(nsent(l.items)) + 1 && lastsent(l.items).typ == t && lastsent(l.items).pos == old(l.start)
+//@   ensures lastsent(l.items).val == l.input[old(l.start):l.pos]
+
+//@ func (*lexer).errorf
+//@   requires LI(l)
+//@   modifies sent(l.items)
+//@   nopanic
+//@   ensures result == nil && nsent(l.items) == old(nsent(l.items)) + 1 && lastsent(l.items).typ == itemError && lastsent(l.items).pos == l.start
+
+//@ func isSpace
+//@   nopanic
+//@   ensures result == (r == ' ' || r == '\t')
+//@ func isEndOfLine
+//@   nopanic
+//@   ensures result == (r == '\r' || r == '\n')
+//@ func isSep
+//@   nopanic
+//@   ensures result == (r == ' ' || r == '\t' || r == '\r' || r == '\n')
+//@ func isTerminator
+//@   nopanic
+//@   ensures result == (r == ' ' || r == '\t' || r == '\r' || r == '\n' || r == ';' || r == '{' || r == '"' || r == '}')
+
+// ---------------------------------------------------------------------------
+// State functions. statepre is what each state may assume on entry, rank/measure the
+// termination argument of run(): every transition decreases 3*(remaining input) + rank.
+
+//@ define isstate(fn) = fn == funcval(lexStmt) || fn == funcval(lexComment) || fn == funcval(lexCommentLine) || fn == funcval(lexString) || fn == funcval(lexSep) || fn == funcval(lexQuote)
+//@ define nonterm(b) = !(b == ' ' || b == '\t' || b == '\r' || b == '\n' || b == ';' || b == '{' || b == '"' || b == '}')
+//@ define statepre(fn, l) = implies(fn == funcval(lexStmt), l.start == l.pos) &&
+//@     implies(fn == funcval(lexComment), l.start == l.pos && l.pos + 2 <= len(l.input) && hasprefix(l.input[l.pos:], "/*")) &&
+//@     implies(fn == funcval(lexCommentLine), l.start == l.pos && l.pos + 2 <= len(l.input) && hasprefix(l.input[l.pos:], "//")) &&
+//@     implies(fn == funcval(lexString), l.start == l.pos && l.pos < len(l.input) && nonterm(l.input[l.pos])) &&
+//@     implies(fn == funcval(lexSep), l.start < l.pos) &&
+//@     implies(fn == funcval(lexQuote), l.pos == l.start + 1 && (l.input[l.start] == '"' || l.input[l.start] == '\''))
+//@ define rank(fn) = ite(fn == funcval(lexSep), 2, ite(fn == funcval(lexStmt), 1, 0))
+//@ define measure(fn, l) = 3*(len(l.input) - l.pos) + rank(fn)
+
+//@ func type:stateFn
+//@   params l
+//@   requires LI(l) && isstate(fn) && statepre(fn, l)
+//@   modifies l.pos
+//@   modifies l.start
+//@   modifies l.width
+//@   modifies l.bracketDepth
+//@   modifies sent(l.items)
+//@   modifies mapof(l.interner.knownStrings)
+//@   nopanic
+//@   ensures LI(l)
+//@   ensures iff(result == nil, sentTerminal(l))
+//@   ensures implies(result != nil, isstate(result) && statepre(result, l))
+//@   ensures implies(result != nil, measure(result, l) < old(measure(fn, l)))
+
+//@ func lexComment
+//@   implements type:stateFn
+//@   requires LI(l) && l.start == l.pos && l.pos + 2 <= len(l.input) && hasprefix(l.input[l.pos:], "/*")
+//@   modifies l.pos
+//@   modifies l.start
+//@   modifies sent(l.items)
+//@   nopanic
+
+//@ func lexCommentLine
+//@   implements type:stateFn
+//@   requires LI(l) && l.start == l.pos && l.pos + 2 <= len(l.input) && hasprefix(l.input[l.pos:], "//")
+//@   modifies l.pos
+//@   modifies l.start
+//@   modifies sent(l.items)
+//@   nopanic
+
+//@ func lexSep
+//@   implements type:stateFn
+//@   requires LI(l) && l.start < l.pos
+//@   modifies l.pos
+//@   modifies l.start
+//@   modifies l.width
+//@   modifies sent(l.items)
+//@   modifies mapof(l.interner.knownStrings)
+//@   nopanic
+//@   loop 0 invariant LI(l) && l.start < l.pos && sameText(l) && nsent(l.items) == old(nsent(l.items)) && l.pos >= old(l.pos)
+//@   loop 0 decreases len(l.input) - l.pos
+
+//@ func lexString
+//@   implements type:stateFn
+//@   requires LI(l) && l.start == l.pos && l.pos < len(l.input) && nonterm(l.input[l.pos])
+//@   modifies l.pos
+//@   modifies l.start
+//@   modifies l.width
+//@   modifies sent(l.items)
+//@   modifies mapof(l.interner.knownStrings)
+//@   nopanic
+//@   loop 0 invariant LI(l) && l.start == old(l.start) && sameText(l) && nsent(l.items) == old(nsent(l.items)) && l.pos >= old(l.pos)
+//@   loop 0 invariant l.pos > old(l.pos) || (l.pos < len(l.input) && nonterm(l.input[l.pos]))
+//@   loop 0 decreases len(l.input) - l.pos
+
+//@ func lexQuote
+//@   implements type:stateFn
+//@   requires LI(l) && l.pos == l.start + 1 && (l.input[l.start] == '"' || l.input[l.start] == '\'')
+//@   modifies l.pos
+//@   modifies l.start
+//@   modifies l.width
+//@   modifies sent(l.items)
+//@   modifies mapof(l.interner.knownStrings)
+//@   nopanic
+//@   loop 0 invariant LI(l) && sameText(l) && l.pos >= old(l.pos) && nsent(l.items) == old(nsent(l.items)) + 1 && lastsent(l.items).typ == itemQuote
+//@   loop 0 decreases len(l.input) - l.pos
+
+//@ func lexStmt
+//@   implements type:stateFn
+//@   requires LI(l) && l.start == l.pos
+//@   modifies l.pos
+//@   modifies l.start
+//@   modifies l.width
+//@   modifies l.bracketDepth
+//@   modifies sent(l.items)
+//@   modifies mapof(l.interner.knownStrings)
+//@   nopanic
+//@   loop 0 invariant LI(l) && l.start == l.pos && sameText(l) && l.pos == old(l.pos) && nsent(l.items) == old(nsent(l.items))
+
+// run: the goroutine body. It cannot panic, every iteration makes progress, and it
+// stops exactly when a terminal item has been handed to the consumer.
+//@ func (*lexer).run
+//@   requires LI(l) && l.start == 0 && l.pos == 0
+//@   modifies l.state
+//@   modifies l.pos
+//@   modifies l.start
+//@   modifies l.width
+//@   modifies l.bracketDepth
+//@   modifies sent(l.items)
+//@   modifies mapof(l.interner.knownStrings)
+//@   nopanic
+//@   ensures nsent(l.items) > old(nsent(l.items)) && (lastsent(l.items).typ == itemEOF || lastsent(l.items).typ == itemError)
+//@   loop 0 invariant LI(l) && sameText(l) && nsent(l.items) >= old(nsent(l.items))
+//@   loop 0 invariant implies(l.state != nil, isstate(l.state) && statepre(l.state, l))
+//@   loop 0 invariant implies(l.state == nil, nsent(l.items) > old(nsent(l.items)) && (lastsent(l.items).typ == itemEOF || lastsent(l.items).typ == itemError))
+//@   loop 0 decreases ite(l.state == nil, 0, measure(l.state, l) + 1)
